@@ -33,6 +33,24 @@ type step06 struct {
 
 type ctxKey06 struct{}
 
+// HTag has hooks whose effect shows in the bound values: a chain that silently lost (or gained)
+// hook execution is visible in the statement it builds.
+type HTag struct {
+	ID int64 `gorm:"primaryKey"`
+	C1 string
+	C2 int64
+}
+
+func (t *HTag) BeforeSave(tx *gorm.DB) error {
+	t.C2 += 1000
+	return nil
+}
+
+func (t *HTag) BeforeCreate(tx *gorm.DB) error {
+	t.C1 = "hooked:" + t.C1
+	return nil
+}
+
 // genStep builds one chain-method call from a seed; calling it twice with the same seed
 // yields equal but independent argument values (history vs. isolated replay).
 func genStep(seed uint64, root *gorm.DB) step06 {
@@ -132,7 +150,7 @@ func genStep(seed uint64, root *gorm.DB) step06 {
 	return step06{desc: "Model(&Tag{})", apply: func(db *gorm.DB) *gorm.DB { return db.Model(&Tag{}) }}
 }
 
-var finishers06 = []string{"Find", "First", "Take", "Count", "Pluck", "Scan", "Update", "Updates", "Delete", "Create", "Save"}
+var finishers06 = []string{"Find", "First", "Take", "Count", "Pluck", "Scan", "Update", "Updates", "Delete", "Create", "Save", "CountDirect", "CreateHooked", "SaveHooked"}
 
 func genFinisher(seed uint64) (string, func(db *gorm.DB) *gorm.DB) {
 	g := newGen(core.NewRand(seed))
@@ -162,6 +180,14 @@ func genFinisher(seed uint64) (string, func(db *gorm.DB) *gorm.DB) {
 			return db.Delete(&Tag{})
 		case "Create":
 			return db.Create(&Tag{C1: l.val.(string), C2: 1})
+		case "CountDirect":
+			// the handle's own model / table, no Model() in front (the usual total of a paginated list)
+			var n int64
+			return db.Count(&n)
+		case "CreateHooked":
+			return db.Model(&HTag{}).Create(&HTag{C1: l.val.(string), C2: 1})
+		case "SaveHooked":
+			return db.Model(&HTag{}).Save(&HTag{ID: 5, C1: l.val.(string), C2: 2})
 		}
 		return db.Save(&Tag{ID: 7, C1: l.val.(string)})
 	}
@@ -191,6 +217,16 @@ func applyPel(p pel, db *gorm.DB, root *gorm.DB) (*gorm.DB, string, *step06) {
 		return db.Debug(), "Debug()", nil
 	case "begin":
 		return db.Begin(), "Begin()", nil
+	case "skiphooks":
+		return db.Session(&gorm.Session{SkipHooks: true}), "Session(&Session{SkipHooks:true})", nil
+	case "newdb+skiphooks":
+		return db.Session(&gorm.Session{NewDB: true, SkipHooks: true}), "Session(&Session{NewDB:true, SkipHooks:true})", nil
+	case "newdb+ctx":
+		return db.Session(&gorm.Session{NewDB: true, Context: context.WithValue(context.Background(), ctxKey06{}, 2)}), "Session(&Session{NewDB:true, Context:ctx2})", nil
+	case "session+ctx":
+		return db.Session(&gorm.Session{Context: context.WithValue(context.Background(), ctxKey06{}, 3)}), "Session(&Session{Context:ctx3})", nil
+	case "newdb+dryprep":
+		return db.Session(&gorm.Session{NewDB: true, PrepareStmt: true}), "Session(&Session{NewDB:true, PrepareStmt:true})", nil
 	case "group":
 		// a reusable handle used as grouped condition: in the history the live handle
 		// itself, in the replay the handle rebuilt alone from its own path
@@ -242,6 +278,15 @@ func fmtStmt(db *gorm.DB) string {
 		parts[i] = v
 	}
 	s := db.Statement.SQL.String() + " :: [" + strings.Join(parts, ", ") + "]"
+	// what the statement would run under is part of the chain's outcome (a cancelled context, skipped hooks)
+	if db.Statement.Context != nil {
+		if v := db.Statement.Context.Value(ctxKey06{}); v != nil {
+			s += fmt.Sprintf(" ctx=%v", v)
+		}
+	}
+	if db.Statement.SkipHooks {
+		s += " skiphooks"
+	}
 	if db.Error != nil {
 		s += " ERR=" + db.Error.Error()
 	}
@@ -368,7 +413,7 @@ func run06(c *core.Ctx) {
 				kept = append(kept, s)
 				path = append(path, p)
 			}
-			mk := pel{kind: core.Pick(r, []string{"session", "session", "session", "ctx", "debug", "begin", "newdb"})}
+			mk := pel{kind: core.Pick(r, []string{"session", "session", "session", "ctx", "debug", "begin", "newdb", "skiphooks", "newdb+skiphooks", "newdb+ctx", "session+ctx", "newdb+dryprep"})}
 			db, _, _ = applyPel(mk, db, root)
 			if mk.kind == "begin" {
 				txs = append(txs, db)
@@ -504,7 +549,7 @@ func run06(c *core.Ctx) {
 var EngineC06 = &core.Engine{
 	ID:    "C06",
 	Level: "exploration",
-	Rule: "histories of 10..28 operations over a growing tree of reusable handles (Open; Session, Session{NewDB}, WithContext, Debug, Begin with 0..3 chain methods in front): start a chain from any handle, extend any chain, execute a DryRun finisher (11 kinds) on a chain or directly on a handle, abandon chains, pass a reusable handle (repeatedly the same one) as grouped condition to Where/Or at the start or in the middle of a chain; chain methods from 28 forms (two of them calls gorm rejects: the error must stay in that chain; Where/Or/Not in 4 renderings, Select list/varargs, Omit, Order, Limit, Offset, Group, Having, Joins, Distinct, Unscoped, Scopes, Clauses(Returning/OrderBy/Locking/OnConflict/Where), Table, Model) with slice arguments that have spare capacity; " +
+	Rule: "histories of 10..28 operations over a growing tree of reusable handles (Open; Session, Session{NewDB}, WithContext, Debug, Begin, Session{SkipHooks}, Session{NewDB} combined with SkipHooks / Context / PrepareStmt, Session{Context}, with 0..3 chain methods in front): start a chain from any handle, extend any chain, execute a DryRun finisher (14 kinds, among them Count without Model() in front and writes of a model whose hooks change the bound values; the statement's context marker and SkipHooks flag are part of the compared outcome) on a chain or directly on a handle, abandon chains, pass a reusable handle (repeatedly the same one) as grouped condition to Where/Or at the start or in the middle of a chain; chain methods from 28 forms (two of them calls gorm rejects: the error must stay in that chain; Where/Or/Not in 4 renderings, Select list/varargs, Omit, Order, Limit, Offset, Group, Having, Joins, Distinct, Unscoped, Scopes, Clauses(Returning/OrderBy/Locking/OnConflict/Where), Table, Model) with slice arguments that have spare capacity; " +
 		"every finisher event's path is replayed alone (twice) on a fresh Open and compared; distinct = (method-name path, finisher); non-trivial = path of at least 2 calls",
 	Assumptions: []string{
 		"results of chain methods (non-reusable handles) are only ever continued as that same chain, never forked, as gorm documents",
